@@ -32,6 +32,10 @@ def gen_tree(rng, n=None, feats=None):
                 e["args"] = [rng.randrange(4) for _ in range(rng.randrange(0 if mode == "batch" else 1, 4))]
             if mode == "ctx":
                 e["ctx"] = rng.choice([{}, {"k": 1}, {"k": 2}, {"k": 1, "j": "a"}])
+            if mode == "prevent":
+                # prevention is not part of the key: the prevented call gets an argument that no other edge can produce,
+                # so that its result (computed from refused nested calls) is never served to an ordinary call
+                e["arg"] = ["const", -(10 + 10 * i + len(nd["edges"]))]   # negative: self-recursion (x > 0 only) cannot explode if prevention fails
             if rng.random() < F.get("p_when", 0.3):
                 e["when"] = sorted(set(rng.sample([0, 1, 2, 3, 4], rng.randrange(1, 4))))   # argument-dependent call structure
             nd["edges"].append(e)
@@ -72,6 +76,10 @@ def render(prog, resource_paths=None):
         out.append("@m.memento_function")
         out.append("def %s(%s):" % (nd["name"], sig))
         out.append('    __vtrace__("%s", x, sorted(locals()))' % nd["name"])
+        if nd.get("transient"):
+            # a transient failure: the first execution in a process raises an exception that is not to be memoized
+            out.append('    if x in %r and __vfirst__("%s", x):' % (tuple(nd["transient"]), nd["name"]))
+            out.append('        raise __VTransient__("boom %s %%d transient" %% x)' % nd["name"])
         out.append("    r = []")
         for rs in nd["resources"]:
             if rs["kind"] == "file":
@@ -132,6 +140,19 @@ def install_helpers():
         return [["exc", type(r).__name__, vmsg(r)] if isinstance(r, BaseException) else r for r in results]
     builtins.__vmsg__ = vmsg
     builtins.__vsum__ = vsum
+    from twosigma.memento.exception import NonMemoizedException
+    seen = set()
+
+    def vfirst(name, x):
+        if (name, x) in seen:
+            return False
+        seen.add((name, x))
+        return True
+
+    class VTransient(NonMemoizedException):
+        pass
+    builtins.__vfirst__ = vfirst
+    builtins.__VTransient__ = VTransient
 
 
 # ----------------------------------------------------------------------------- reference model
